@@ -183,9 +183,10 @@ type world struct {
 	p      params
 	exits0 int
 
-	connMu sync.Mutex
-	closed bool
-	conns  []net.Conn // node-to-node connections (closed with the world: h2c connections are hijacked)
+	connMu  sync.Mutex
+	closed  bool
+	conns   []net.Conn   // node-to-node connections (closed with the world: h2c connections are hijacked)
+	variant atomic.Int64 // rotates the concrete form of body classes that have several
 }
 
 func commitTx(n *sim.CNode, name string, ps uint32, from, to int) error {
@@ -712,7 +713,18 @@ func (w *world) body(r req) []byte {
 		case "valid":
 			return img
 		case "truncated":
-			return img[:ps+ps/2]
+			// cut inside a page / exactly on a page boundary / header only / complete but announcing zero pages
+			switch w.variant.Add(1) % 4 {
+			case 0:
+				return img[:ps+ps/2]
+			case 1:
+				return img[:ps]
+			case 2:
+				return img[:100]
+			default:
+				binary.BigEndian.PutUint32(img[28:], 0)
+				return img
+			}
 		case "garbage":
 			return rndBytes(seed, 300)
 		case "oversized": // page count far beyond the pages that follow
@@ -754,7 +766,11 @@ func (w *world) body(r req) []byte {
 			_ = lhttp.WritePosMapTo(&buf, pm)
 		case "truncated":
 			_ = lhttp.WritePosMapTo(&buf, pm)
-			buf.Truncate(buf.Len() - 5)
+			if w.variant.Add(1)%2 == 0 || len(pm) == 0 {
+				buf.Truncate(buf.Len() - 5) // inside an entry
+			} else {
+				buf.Truncate(4) // right after the count: entries announced, none present
+			}
 		case "garbage": // readable framing, nonsense content
 			_ = lhttp.WritePosMapTo(&buf, map[string]ltx.Pos{"db\xff\xfe/..": {TXID: 0xffffffffffffff00, PostApplyChecksum: 1}, "": {TXID: 7, PostApplyChecksum: ltx.Checksum(seed)}})
 		case "oversized": // one entry whose name claims 1 MiB, ten bytes follow (2^32-1 goes to the child process)
